@@ -404,7 +404,8 @@ func TestVerifC01_RowNamespaceData(t *testing.T) {
 		if err := vk.SharesBytesEqual(honest.Shares, refRow(r, ns)); err != nil {
 			t.Fatalf("C01 honest row namespace data differs from the committed shares: %v", err)
 		}
-		family := rapid.SampledFrom([]string{"otherrow", "otherns", "dropshare", "dupshare", "reorder", "sibling", "proofshift", "bytes"}).Draw(t, "family")
+		family := rapid.SampledFrom([]string{"otherrow", "otherns", "dropshare", "dupshare", "reorder", "sibling", "proofshift", "bytes",
+			"absence+shares", "absence+shares"}).Draw(t, "family")
 		resp := shwap.RowNamespaceData{Shares: append([]libshare.Share(nil), honest.Shares...), Proof: honest.Proof}
 		decoded := true
 		switch family {
@@ -472,6 +473,40 @@ func TestVerifC01_RowNamespaceData(t *testing.T) {
 				d = 1
 			}
 			resp.Proof = cloneProof(honest.Proof, d, d)
+		case "absence+shares":
+			// the honest proof of absence of a neighbouring absent namespace in a covering row, with
+			// shares attached; requested for that absent namespace
+			odd := vk.OddNS(rapid.IntRange(0, 6).Draw(t, "odd"))
+			orows := sq.RefRowsCovering(odd)
+			if len(orows) == 0 {
+				decoded = false
+				break
+			}
+			orow := orows[rapid.IntRange(0, len(orows)-1).Draw(t, "orowpick")]
+			abs, err := acc.RowNamespaceData(ctx, odd, orow)
+			if err != nil || abs.Proof == nil || !abs.Proof.IsOfAbsence() {
+				decoded = false
+				break
+			}
+			ns, r = odd, orow
+			n := rapid.IntRange(1, 3).Draw(t, "nattach")
+			var attached []libshare.Share
+			for i := 0; i < n; i++ {
+				attached = append(attached, sq.Shares[rapid.IntRange(0, sq.ODS*sq.ODS-1).Draw(t, "attach")])
+			}
+			resp = shwap.RowNamespaceData{Shares: attached, Proof: abs.Proof}
+			// through the wire
+			var wb bytes.Buffer
+			if _, err := resp.WriteTo(&wb); err != nil {
+				decoded = false
+				break
+			}
+			var dec shwap.RowNamespaceData
+			if _, err := dec.ReadFrom(bytes.NewReader(wb.Bytes())); err != nil {
+				decoded = false
+				break
+			}
+			resp = dec
 		case "bytes":
 			var buf bytes.Buffer
 			_, err := honest.WriteTo(&buf)
